@@ -266,6 +266,29 @@ def _place_op(discr_origin):
     return {"cp": {"l": int(m.group(1))}} if m else {"c": 1}
 
 
+def returns_call(f, call, also=()):
+    """every definition of the return place is the destination of `call`, a copy of its result, or (also) an
+    aggregate of one of the ADTs named in `also`"""
+    ds = f.defs.get(0, [])
+    if not ds:
+        return False
+    for b, i, kind, payload in ds:
+        if kind == "call":
+            if b != call.bb:
+                return False
+        elif kind == "assign" and payload["k"] == "use":
+            if not same_call(f.origin(payload["o"]), call) or f.origin(payload["o"]).get("proj"):
+                return False
+        elif kind == "assign" and payload["k"] == "cast":
+            if not same_call(f.origin(payload["o"]), call):
+                return False
+        elif kind == "assign" and payload["k"] == "agg" and any(payload.get("adt", "").endswith(a) for a in also):
+            continue
+        else:
+            return False
+    return True
+
+
 def diverges(f, b):
     return not (f.reachable(b) & set(f.returns()))
 
@@ -316,8 +339,8 @@ def run(rep, tier):
         "sleep-state protocol around poll_next, delivery of the event triple, the context-slot protocol and the "
         "single release of the boxed task in `callback` / `start_task`, the block_on driver's answers, the constant "
         "tables, the destructor running under the p3 task scope with a restoring guard, the spawn executor re-polling "
-        "newly spawned work before reporting Ready, TaskCancelOnDrop, and that the waitable set is only unwrapped "
-        "where it is known to exist. It does NOT explore event schedules, the host's behaviour or the futures crate.",
+        "newly spawned work before reporting Ready, TaskCancelOnDrop, and (R22.8, added) that the Option holding the "
+        "waitable set is only unwrapped where the set is known to exist. It does NOT explore event schedules, the host's behaviour or the futures crate.",
         trusted_base=["rustc nightly MIR (opt-level 0) of crates/guest-rust", "unwind edges ignored (panic = trap)",
                       "tools/mirfacts", "tools/synfacts (one `==` operand hidden in a promoted constant; link names)"],
         assumptions=["native (x86_64) build of the runtime: extern_wasm! built-ins appear as shim functions",
@@ -392,7 +415,7 @@ def one(rep, c, cfg):
                 t = tg.get(EV[name], tg["else"])
                 rep.ob("R22.1", f"TaskState::callback: {name} runs the executor closure and returns its code {tag}",
                        outer.all_paths_pass(t, outer.returns(), [x.bb for x in run_cl]) and
-                       all(x.dest.get("l") == 0 and not x.dest.get("p") for x in run_cl) and
+                       len(run_cl) == 1 and returns_call(outer, run_cl[0], also=["::CallbackCode"]) and
                        not (outer.reachable(t) & {sb for sb, _, _, _ in sites}),
                        "an ordinary event can return without polling, or can reach the cancel answer", outer.loc(b))
             tc = tg.get(EV["EVENT_CANCEL"], tg["else"])
@@ -547,6 +570,18 @@ def one(rep, c, cfg):
                 rep.ob("R22.1", f"executor: the callback's event is delivered once (not in the loop) {tag}",
                        not f.in_cycle(d.bb), "", f.loc(d.bb))
 
+        # --- remaining_work() is `!shared.waitables.is_empty()`
+        rw = meth(c, "TaskState", "remaining_work")
+        rep.saw(rw)
+        ie = [x for x in rw.calls(["BTreeMap::is_empty", "BTreeMap::len"])
+              if {".waitables", ".shared"} <= set(chase(rw, x.args[0])[0])]
+        ret = [s for b in sorted(rw.live) for s in rw.stmts(b)
+               if s["k"] == "=" and s["p"]["l"] == 0 and not s["p"].get("p")]
+        ok = len(ie) == 1 and ie[0].matches("BTreeMap::is_empty") and len(ret) == 1 and ret[0]["rv"]["k"] == "un" and \
+            ret[0]["rv"]["op"] == "Not" and same_call(rw.origin(ret[0]["rv"]["a"]), ie[0])
+        rep.ob("R22.1", f"remaining_work() is the negation of shared.waitables.is_empty() {tag}", ok,
+               "the Exit/Wait decision does not look at the registered waitables", rw.loc())
+
         # --- who may construct a CallbackCode
         n = 0
         for g in c.fns.values():
@@ -589,10 +624,8 @@ def one(rep, c, cfg):
                "the task state stays reachable through the context slot while the callback runs", f.loc(inner.bb))
         rep.ob("R22.2", f"callback: the slot is not refilled before TaskState::callback {tag}",
                not any(inner.bb in f.reachable(s.bb, avoid={x.bb for x in nulls}) for s in restores), "", f.loc(inner.bb))
-        nn = [(b, ft, tt) for b, ft, tt in bool_switches_on_call(f, PTR_CASTS + [re.compile(r"::is_null$")])
-              if is_state(f.switch_origin(b)["call"].args[0]) or
-              (strip_not(f.switch_origin(b))[0].get("kind") == "call" and
-               is_state(strip_not(f.switch_origin(b))[0]["call"].args[0]))]
+        nn = [(b, ft, tt) for b, ft, tt in bool_switches_on_call(f, re.compile(r"::is_null$"))
+              if is_state(strip_not(f.switch_origin(b))[0]["call"].args[0])]
         rep.floor("R22.2", f"null test of the state pointer in callback {tag}", len(nn), 1)
         for b, ft, tt in nn:
             rep.ob("R22.2", f"callback: a null state pointer never reaches TaskState::callback {tag}",
@@ -652,7 +685,7 @@ def one(rep, c, cfg):
         enc = f.calls("CallbackCode::encode")
         rep.ob("R22.2", f"callback: returns encode(code of TaskState::callback) on every path {tag}",
                len(enc) == 1 and every_return_passes(f, [enc[0].bb]) and same_call(f.origin(enc[0].args[0]), inner) and
-               enc[0].dest.get("l") == 0, "", f.loc())
+               returns_call(f, enc[0]), "", f.loc())
 
         # start_task
         g = c.fn("async_support::start_task")
@@ -678,7 +711,7 @@ def one(rep, c, cfg):
                    ft is not None and not (g.reachable(ft) & {s.bb for s in gsets}) and
                    all(g.dominates(b, s.bb) for s in gsets), "", g.loc(b))
         rep.ob("R22.2", f"start_task: returns the code of the first callback {tag}",
-               every_return_passes(g, [cb.bb]) and same_call(root(g, {"cp": {"l": 0}}, []), cb),
+               every_return_passes(g, [cb.bb]) and returns_call(g, cb),
                "", g.loc())
 
         # who may touch the slot / release a TaskState
@@ -869,6 +902,20 @@ def one(rep, c, cfg):
                   and w.origin(x.args[0])["n"] == 2]
         rep.floor("R22.5", f"invocation of `f` in with_p3_task_set {tag}", len(invoke), 1)
         gd = [b for b, t in w.drops(r"ResetTask")]
+        for x in sets:
+            o = w.origin(x.args[0])
+            while is_call(o, PTR_CASTS):
+                o = w.origin(o["call"].args[0])
+            v2 = o.get("rv", {}) if o.get("kind") == "agg" else {}
+            v1 = w.origin(v2["ops"][0]) if v2.get("ops") else {}
+            v1 = v1.get("rv", {}) if v1.get("kind") == "agg" else {}
+            ok = v2.get("adt", "").endswith("wasip3_task_v2") and v1.get("adt", "").endswith("wasip3_task")
+            if ok:
+                idx = [n for n, _ in c.adt("wasip3_task")["variants"][0]["fields"]].index("ptr")
+                fields, term = chase(w, v1["ops"][idx], PTR_CASTS + [DEREF])
+                ok = ".shared" in fields and term.get("kind") == "arg" and term["n"] == 1
+            rep.ob("R22.5", f"with_p3_task_set: the installed task points at this task's shared state {tag}", ok,
+                   "waitables registered while polling / dropping land in another task's set", w.loc(x.bb))
         for b, i, rv, s in guards:
             o = w.origin(rv["ops"][0])
             rep.ob("R22.5", f"with_p3_task_set: the guard holds the pointer returned by wasip3_task_set {tag}",
@@ -882,7 +929,8 @@ def one(rep, c, cfg):
                    not any(b in w.reachable(0, avoid=[x.bb]) for b in gd),
                    "the previous task is restored before `f` ran, or never", w.loc(x.bb))
             rep.ob("R22.5", f"with_p3_task_set: `f` receives self and its result is returned {tag}",
-                   x.dest.get("l") == 0 and not x.dest.get("p"), "", w.loc(x.bb))
+                   returns_call(w, x) and w.origin(x.args[1]).get("kind") == "agg" and
+                   [w.origin(op).get("n") for op in w.origin(x.args[1])["rv"]["ops"]] == [1], "", w.loc(x.bb))
         rep.ob("R22.5", f"with_p3_task_set: the guard is never forgotten {tag}",
                not w.calls(["mem::forget", "ManuallyDrop::new"]), "", w.loc())
         d = meth(c, "ResetTask", "drop", trait="Drop")
@@ -946,7 +994,7 @@ def one(rep, c, cfg):
             rep.ob("R22.6", f"spawn::Tasks::is_empty is FuturesUnordered::is_empty of the set {tag}",
                    len(e.calls("FuturesUnordered::is_empty")) == 1 and
                    every_return_passes(e, e.call_blocks("FuturesUnordered::is_empty")) and
-                   e.calls("FuturesUnordered::is_empty")[0].dest.get("l") == 0, "", e.loc())
+                   returns_call(e, e.calls("FuturesUnordered::is_empty")[0]), "", e.loc())
         else:
             polls = f.calls("Future::poll")
             rep.floor("R22.6", f"Future::poll sites in spawn_disabled {tag}", len(polls), 1)
@@ -967,7 +1015,7 @@ def one(rep, c, cfg):
             rep.ob("R22.6", f"spawn_disabled::Tasks::is_empty is `future.is_none()` {tag}",
                    len(e.calls("Option::is_none")) == 1 and
                    ".future" in e.origin(e.calls("Option::is_none")[0].args[0]).get("proj", []) and
-                   e.calls("Option::is_none")[0].dest.get("l") == 0, "", e.loc())
+                   returns_call(e, e.calls("Option::is_none")[0]), "", e.loc())
     rep.guard("R22.6", f"tasks {tag}", r6)
 
     # ------------------------------------------------------------------ R22.7 TaskCancelOnDrop
